@@ -944,11 +944,20 @@ def handleStep (d : DS) (s : St) (t : Toks) (o : Toks) (after : Obs) : St :=
       let oracle : Option Bytes := match log with
         | (_, a) :: _ => a
         | [] => none
+      -- (fail=2: the harness made the signer answer with a signature that does not verify; the
+      --  premise SigOK is then deliberately broken and only the treatment of the call is looked at)
+      let badSigner := tget t "fail" == "2"
       let s := match req, oracle with
         | some m, some sg =>
+          if badSigner then s else
           let (s, v) := s.verifyCached S d.toB pk m sg
           if v then s.chk else s.prop "C05" "sigok_signer_answer_verifies" ""
         | _, _ => s
+      -- several threads reading the one record at once
+      let s := match tget o "shared" with
+        | "panic" => s.prop "C03" "no_panic_when_threads_read_one_record" s!"op={opn}"
+        | "differ" => (s.prop "C03" "threads_reading_one_record_see_the_same" s!"op={opn}").prop "C05" "verifies_under_own_key" s!"threads reading one record disagree, op={opn}"
+        | _ => s.chk
       let (mo0, mr0) := step S r op pk oracle
       -- the same update without the size check that precedes signing (what matters is the result)
       let (moL, mrL) : Res Ret × Record := match prepareG S r op pk false, oracle with
@@ -1343,14 +1352,17 @@ def finishPending (s : St) (recs : List Obs) (acc : Option Toks) : St :=
           | some after =>
             let s := { s with before := s.cur }
             let s := handleStep d s t o after
-            let (s, mi) := if resClass (tget o "res") == "ok" then
+            -- (after a signer that answered with an invalid signature the record is not looked at:
+            --  the library does not promise anything about it, only about refused calls)
+            let badSigner := tget t "fail" == "2"
+            let (s, mi) := if resClass (tget o "res") == "ok" && !badSigner then
                 (let x := checkRecord d s after "step"; (x.1, x.2.2)) else (s, none)
             -- after a failed update the record is the one already examined after the previous step
             let unchanged := match s.before with
               | some b => resClass (tget o "res") != "ok" && obsEq b after
               | none => false
             let s := match acc with
-              | some a => if unchanged then s else checkAcc d s after a mi
+              | some a => if unchanged || (badSigner && resClass (tget o "res") == "ok") then s else checkAcc d s after a mi
               | none => s
             { s with cur := some after }
           | none => s
